@@ -114,6 +114,32 @@ def mutate(text, rng):
     return "\n".join(lines)
 
 
+_DEEDS = []
+
+
+def deed_words():
+    """`do` kind words of every deed class ioflo registers (ControllerPidSpeed -> controller pid speed), the base
+    classes included: read from the live Doer registry, so new deeds are covered without editing this file"""
+    if not _DEEDS:
+        from vf.flo import dump
+        dump.build_text("house h\n  framer m be active\n    frame a\n")       # building imports the deed modules
+        from ioflo.base import doing
+        for name in sorted(doing.Doer.Registry.keys()):
+            if not name.startswith("Vf"):
+                _DEEDS.append(" ".join(w.lower() for w in re.findall(r"[A-Z][a-z0-9]*", name)))
+    return _DEEDS
+
+
+def deed_line(rng):
+    """a `do` of a registered deed with generated clauses: the deed's own ioinit handling meets unexpected inits"""
+    line = "do " + rng.choice(deed_words())
+    for _ in range(rng.choice([0, 1, 1, 2, 3])):
+        line += " " + rng.choice(["via heading", "via .p.q.", "via me", "as fred", "as my deed", "at enter", "at bogus", "per x 1", "per group .g output .o",
+                                  'per input ".i" rate ".r" rsp ".s"', "per parms 5", "for a in .ioi", "for group in .ioi", "from value in .x",
+                                  "with a 1", "with wrap 1j", "cum b 2", "qua c in .q", "with", "per", "via"])
+    return line
+
+
 def grammar_script(rng):
     """small scripts with deliberately crossed references"""
     names = ["a", "b", "c", "d"]
@@ -156,6 +182,8 @@ def grammar_script(rng):
                     L.append("      bid %s %s" % (rng.choice(["stop", "start", "abort", "bogus"]), rng.choice(fnames + ["zz", "all", "me"])))
                 elif k < 0.92:
                     L.append("      %s %s" % (rng.choice(["ready", "start", "stop", "run", "abort"]), rng.choice(fnames + ["zz"])))
+                elif k < 0.96:
+                    L.append("      " + deed_line(rng))
                 else:
                     L.append("      %s" % rng.choice(["done zz", "rear m0 as mine be aux in frame a", "raze all in frame zz",
                                                       "timeout x", "repeat -1.5", "let me if .x", "put 1 into", "set .x with",
